@@ -96,8 +96,10 @@ def build(ast, cat, rng, stats, force=None, prefer=None):
                 _RISKY_PLAIN_FLOATS.add(struct.pack(">d", leaf[1][0]))
         if info["dynamic"] and fmt == "B" and any(f in ("A", "J") for f in fmts):
             plain = None  # plain bytes are ambiguous for an item that allows both text and binary (text wins by design)
-        if info["dynamic"] and n > 1 and "L" in fmts and fmt not in ("A", "J", "B"):
-            plain = None  # a plain Python list is ambiguous for an item that also allows a list (the list wins by design)
+        if info["dynamic"] and n > 1 and "L" in fmts and fmt in ("F4", "F8"):
+            # a plain Python list for an item that also allows a list is read as a list item (by design); its elements are then
+            # typed one by one (floats: see the known finding), so only integer and boolean lists have an unambiguous expectation
+            plain = None
         return leaf, typed, plain, sv.expected_get(leaf)
     _, name, members = ast
     if len(members) == 1:
